@@ -8,7 +8,7 @@ TIE = "Dawgs.C17.Tie."
 THEOREMS = {
     "Dawgs.Props.C17": [P + t for t in [
         "pipe_fifo", "pipe_complete", "pipe_writer_never_waits_on_reader",
-        "bf_counter_inv", "bf_no_early_exit", "bf_exactly_once", "bf_measure", "bf_terminates",
+        "bf_pipe_refines", "bf_counter_inv", "bf_no_early_exit", "bf_exactly_once", "bf_measure", "bf_terminates",
         "bf_terminates_partial", "bf_terminates_refuted", "bf_error_cancels", "bf_return_joins_workers",
         "limit_skip_window", "range_partition_exact", "c17_partial", "c17_full_refuted"]],
     "Dawgs.Tie.C17Order": [TIE + t for t in [
@@ -131,6 +131,48 @@ def extra_coverage(ctx, stats):
     if ctx.tier == "thorough":
         cov.update(race_pass(ctx, stats))
     return cov
+
+
+def prove_per_module(ctx, spec):
+    """Same contract as flow.prove, but every Lean module is built on its own so that a broken order fact
+    (Dawgs.Tie.C17Order) is attributed to the tie theorems and not to every theorem of the property."""
+    failed, axioms = [], {}
+    try:
+        spec["regen"](ctx)
+    except Exception as e:  # extractor failure = broken tie
+        failed.append("extractor: %r" % (e,))
+    logs = []
+    for mod, names in spec["theorems_by_module"].items():
+        ok, out = verif.lake_build(ctx, [mod])
+        if not ok:
+            logs.append(out[-3000:])
+            failed += ["theorem %s: module %s does not build" % (t, mod) for t in names]
+            continue
+        for t, (tok, axs) in verif.audit(ctx, mod, names).items():
+            axioms[t] = axs
+            if not tok:
+                failed.append("theorem %s: %s" % (t, ",".join(axs)))
+    ok, out = verif.lake_build(ctx, ["dawgsmodel"])
+    if not ok:
+        failed.append("model driver does not build")
+        logs.append(out[-2000:])
+    if logs:
+        ctx.build_log = "\n".join(logs)[-6000:]
+    hits = verif.grep_gate(ctx, verif.lean_files_for(spec.get("gate_modules", [])))
+    failed += ["forbidden construct: " + h for h in hits]
+    n = len(spec["theorems"])
+    bad = len({f.split(":")[0] for f in failed if f.startswith("theorem ")})
+    return n, (n - bad if not hits else 0), failed, axioms
+
+
+def run(spec, tier, seed, replay=None):
+    import flow
+    orig = flow.prove
+    flow.prove = prove_per_module
+    try:
+        return flow.run_property(spec, tier, seed, replay)
+    finally:
+        flow.prove = orig
 
 
 # schedule noise of the verif-tagged hook (no-op when /repo does not carry hooks/C17.patch)
